@@ -1,5 +1,6 @@
 import Driver.Util
 import GinjaxVerif.Model.C13
+import GinjaxVerif.Model.C13Save
 open Lean Driver GinjaxVerif.ND GinjaxVerif.C13
 
 /-!
@@ -57,6 +58,80 @@ def jSig (s : List (Key × Nat)) : Json :=
 
 def guard (ok : Bool) (what : String) : R Unit :=
   if ok then pure () else throw s!"rejected: {what}"
+
+/-! ### save / load (`Model/C13Save.lean`)
+pytree = `{"tag":s,"children":[..]}` | `{"leaf":L}`; leaf `L` = `{"kind":"arr","cls":"jax"|"np",
+"dtype":name,"shape":[..],"data":[ints: values, or IEEE bit patterns for float dtypes]}` |
+`{"kind":"bool","v":b}` | `{"kind":"int","v":n}` | `{"kind":"float","bits":n}` (float64 bits) |
+`{"kind":"static","id":s}`; record = `{"dtype":name,"shape":[..],"data":[..]}`. -/
+namespace Save
+open GinjaxVerif.C13Save
+
+def dtypeNames : List (String × DType) :=
+  [("bool", .bool), ("int8", .int8), ("int16", .int16), ("int32", .int32), ("int64", .int64),
+   ("uint8", .uint8), ("uint16", .uint16), ("uint32", .uint32), ("uint64", .uint64),
+   ("float16", .float16), ("float32", .float32), ("float64", .float64), ("object", .object)]
+
+def asDType (s : String) : R DType :=
+  match dtypeNames.lookup s with
+  | some d => pure d
+  | none => throw s!"unmodelled: dtype {s}"
+
+def dtypeName (d : DType) : String :=
+  match dtypeNames.find? (fun e => e.2 == d) with
+  | some e => e.1
+  | none => "?"
+
+def asLeaf (j : Json) : R Leaf := do
+  match ← strF j "kind" with
+  | "arr" =>
+    let cls ← strF j "cls"
+    let k ← (match cls with
+      | "jax" => pure ArrKind.jax
+      | "np" => pure ArrKind.np
+      | _ => throw s!"bad array class {cls}" : R ArrKind)
+    let dt ← strF j "dtype" >>= asDType
+    let shape ← listF asNat j "shape"
+    let data ← listF asInt j "data"
+    if data.length != shape.prod then throw "bad input: data length does not match shape"
+    pure (.arr k dt shape data)
+  | "bool" => do pure (.pyBool (← boolF j "v"))
+  | "int" => do pure (.pyInt (← intF j "v"))
+  | "float" => do pure (.pyFloat (← natF j "bits"))
+  | "static" => do pure (.static (← strF j "id"))
+  | k => throw s!"bad leaf kind {k}"
+
+partial def asPT (j : Json) : R PT := do
+  match optField j "leaf" with
+  | some l => do pure (.leaf (← asLeaf l))
+  | none =>
+    let tag ← strF j "tag"
+    let ch ← listF asPT j "children"
+    pure (.node tag ch)
+
+def asChunk (j : Json) : R Chunk := do
+  let dt ← strF j "dtype" >>= asDType
+  let shape ← listF asNat j "shape"
+  let data ← listF asInt j "data"
+  if data.length != shape.prod then throw "bad input: data length does not match shape"
+  pure ⟨dt, shape, data⟩
+
+def jLeaf : Leaf → Json
+  | .arr k dt sh d => Json.mkObj [("kind", "arr"), ("cls", match k with | .jax => "jax" | .np => "np"),
+      ("dtype", dtypeName dt), ("shape", jList jNat sh), ("data", jList jInt d)]
+  | .pyBool b => Json.mkObj [("kind", "bool"), ("v", jBool b)]
+  | .pyInt n => Json.mkObj [("kind", "int"), ("v", jInt n)]
+  | .pyFloat b => Json.mkObj [("kind", "float"), ("bits", jNat b)]
+  | .static s => Json.mkObj [("kind", "static"), ("id", jStr s)]
+
+partial def jPT : PT → Json
+  | .leaf a => Json.mkObj [("leaf", jLeaf a)]
+  | .node tag ch => Json.mkObj [("tag", jStr tag), ("children", Json.arr (ch.map jPT).toArray)]
+
+def jChunk (c : Chunk) : Json :=
+  Json.mkObj [("dtype", dtypeName c.dtype), ("shape", jList jNat c.shape), ("data", jList jInt c.data)]
+
+end Save
 
 def handle (op : String) (j : Json) : R Json := do
   match op with
@@ -134,6 +209,21 @@ def handle (op : String) (j : Json) : R Json := do
     let m ← field j "mi" >>= asMI
     pure (Json.mkObj [("signature", jSig m.signature), ("n_leading", jNat m.nLeading),
       ("spatial", jList jNat m.spatialDims)])
+  | "c13.save" =>
+    let m ← field j "model" >>= Save.asPT
+    pure (Json.mkObj [("chunks", jList Save.jChunk (GinjaxVerif.C13Save.serialise m)),
+      ("leaves", jList Save.jLeaf (GinjaxVerif.C13Save.leaves m))])
+  | "c13.load" =>
+    let cs ← listF Save.asChunk j "chunks"
+    let t ← field j "template" >>= Save.asPT
+    let r ← GinjaxVerif.C13Save.deserialise cs t
+    pure (Save.jPT r)
+  | "c13.save_load" =>
+    let m ← field j "model" >>= Save.asPT
+    let t ← field j "template" >>= Save.asPT
+    let r ← GinjaxVerif.C13Save.saveLoad m t
+    pure (Json.mkObj [("result", Save.jPT r),
+      ("chunks", jList Save.jChunk (GinjaxVerif.C13Save.serialise m))])
   | _ => throw s!"unknown op {op}"
 
 end Driver.C13
